@@ -8,7 +8,7 @@ use fn_graph::{Edge, FnGraph, FnGraphBuilder, FnId};
 use crate::payload::{Fun, MAX_TYPES};
 
 /// Largest batch length supported for `LB` / `CB` (the Rust API takes const-generic arrays).
-pub const MAX_BATCH: usize = 8;
+pub const MAX_BATCH: usize = 20;
 
 #[derive(Clone, Debug, PartialEq, Eq)]
 pub enum Op {
@@ -332,6 +332,18 @@ fn apply_batch(builder: &mut FnGraphBuilder<Fun>, pairs: &[(usize, usize)], cont
         6 => go!(6),
         7 => go!(7),
         8 => go!(8),
+        9 => go!(9),
+        10 => go!(10),
+        11 => go!(11),
+        12 => go!(12),
+        13 => go!(13),
+        14 => go!(14),
+        15 => go!(15),
+        16 => go!(16),
+        17 => go!(17),
+        18 => go!(18),
+        19 => go!(19),
+        20 => go!(20),
         n => panic!("harness: unsupported batch length {n}"),
     }
 }
@@ -661,6 +673,39 @@ fn run_b(c: &CaseB, lines: &mut Vec<String>, flags: &mut CaseFlags) {
         .map(|(id, f)| format!("{}:{}", id.index(), f.idx))
         .collect();
     obs!("TNI", if tni.is_empty() { "-".to_string() } else { tni.join(" ") });
+
+    // PM1..PM4: a traversal after a partially consumed one (all on the same graph value):
+    // map().next() dropped, then for_each; map().take(n/2) consumed, then fold; a map collected
+    // into a Result that short-circuits at the second function, then map; iter().next(), then iter
+    {
+        let _ = g.map(|f: &mut Fun| f.idx).next();
+        let mut v = Vec::new();
+        g.for_each(|f: &mut Fun| v.push(f.idx));
+        obs!("PM1", obs_list(&v));
+        let half = g.graph.node_count() / 2;
+        let _: Vec<usize> = g.map(|f: &mut Fun| f.idx).take(half).collect();
+        let v: Vec<usize> = g.fold(Vec::new(), |mut v: Vec<usize>, f: &mut Fun| {
+            v.push(f.idx);
+            v
+        });
+        obs!("PM2", obs_list(&v));
+        let mut seen = 0usize;
+        let _: Result<Vec<usize>, ()> = g
+            .map(|f: &mut Fun| {
+                seen += 1;
+                if seen >= 2 {
+                    Err(())
+                } else {
+                    Ok(f.idx)
+                }
+            })
+            .collect();
+        let v: Vec<usize> = g.map(|f: &mut Fun| f.idx).collect();
+        obs!("PM3", obs_list(&v));
+        let _ = g.iter().next();
+        let v: Vec<usize> = g.iter().map(|f| f.idx).collect();
+        obs!("PM4", obs_list(&v));
+    }
 
     // TF / TE
     let mut tf_entries = Vec::new();
